@@ -1,5 +1,6 @@
 import OdlModel.Common
 import OdlModel.Model.Spaces
+import OdlModel.Gen.DTypeTables
 open OdlModel OdlModel.Spaces
 
 instance : Inhabited Obj := ⟨.leaf .emptySet⟩
@@ -152,6 +153,82 @@ partial def heapPairs : Term → List (Nat × String)
 
 end Term
 
+/-! printing descriptors back in the wire syntax -/
+
+def showFl : Fl → String
+  | .fin r => showRat r
+  | .negZero => "-0"
+  | .posInf => "inf"
+  | .negInf => "-inf"
+
+def showL (items : List String) : String := "L(" ++ ",".intercalate items ++ ")"
+
+def showDType (d : DType) : String :=
+  match d with
+  | .bool => "bool" | .int8 => "int8" | .int16 => "int16" | .int32 => "int32" | .int64 => "int64"
+  | .uint8 => "uint8" | .uint16 => "uint16" | .uint32 => "uint32" | .uint64 => "uint64"
+  | .float16 => "float16" | .float32 => "float32" | .float64 => "float64"
+  | .float128 => "float128" | .complex64 => "complex64" | .complex128 => "complex128"
+  | .complex256 => "complex256" | .bytes => "bytes" | .str => "str"
+
+def showCls : WCls → String | .np => "np" | .ps => "ps"
+
+def showW : Weighting → String
+  | .const c v e => s!"wc({showCls c},{showFl v},{showFl e})"
+  | .array c i e => s!"wa({showCls c},{i},{showFl e})"
+  | .inner c f => s!"wi({showCls c},{f})"
+  | .norm c f => s!"wn({showCls c},{f})"
+  | .dist c f => s!"wd({showCls c},{f})"
+
+def showT (t : TSpace) : String :=
+  s!"ts({showL (t.shape.map toString)},{showDType t.dtype},{showW t.w})"
+
+def showD (d : Discr) : String :=
+  let axes := d.axes.map fun a => s!"ax({showFl a.lo},{showFl a.hi},{showL (a.pts.map showFl)})"
+  s!"ds({showL axes},{showDType d.dtype},{showW d.w})"
+
+def showFld : Fld → String | .real => "real" | .complex => "complex" | .none => "none"
+
+partial def showS : Space → String
+  | .tensor t => showT t
+  | .discr d => showD d
+  | .prod l w f => s!"ps({showL (l.map showS)},{showW w},{showFld f})"
+
+partial def showRes : Res → String
+  | .same => "same"
+  | .tensor dt sh v sm =>
+      s!"T({showDType dt};{showL (sh.map toString)};{showL (v.map showRat)};{if sm then 1 else 0})"
+  | .discr w r => s!"D({if w then 1 else 0};{showRes r})"
+  | .prod sp rs => s!"P({if sp then 1 else 0};{showL (rs.map showRes)})"
+  | .errValue => "errValue"
+  | .errType => "errType"
+
+namespace Term
+
+def rat? : Term → Option Rat
+  | .atom s => parseRat s
+  | _ => none
+
+def bool? : Term → Option Bool
+  | .atom "1" => some true | .atom "0" => some false | _ => none
+
+partial def inp? : Term → Option Inp
+  | .app "el" [sp, sh, dt, v] => do
+      some (.elem (← space? sp) (← nats? sh) (← dtype? dt) (← (← v.list?).mapM rat?))
+  | .app "ar" [nd, sh, dt, v] => do
+      some (.arr (← bool? nd) (← nats? sh) (← dtype? dt) (← (← v.list?).mapM rat?))
+  | .app "pe" [sp, ps] => do some (.pelem (← space? sp) (← (← ps.list?).mapM inp?))
+  | .app "sq" [ps] => do some (.seq (← (← ps.list?).mapM inp?))
+  | _ => none
+
+def pidx? : Term → Option PIdx
+  | .app "i" [n] => do some (.int (← nat? n))
+  | .app "sl" [a, c, .atom st] => do some (.slice ⟨← nat? a, ← nat? c, ← st.toInt?⟩)
+  | .app "li" [l] => do some (.list (← nats? l))
+  | _ => none
+
+end Term
+
 def mkHeap (ps : List (Nat × String)) : Nat → String :=
   fun i => match ps.find? (·.1 = i) with
     | some p => p.2
@@ -185,10 +262,66 @@ def doContains (l : Line) : Option String := do
   let X ← if xs = "nospace" then some none else (Term.space? (← Term.parse xs)).map some
   some s!"ok {outChar (some (S.contains X))}"
 
+/-- `element S=<space> inp=<inp> forced=0|1` answers the canonical outcome of
+`S.element(inp[, order='C'])`. -/
+def doElement (l : Line) : Option String := do
+  let S ← Term.space? (← Term.parse (← l.get? "S"))
+  let inp ← Term.inp? (← Term.parse (← l.get? "inp"))
+  let forced ← l.bool? "forced"
+  let T := OdlModel.Gen.DTypes.tables
+  let r := match S, forced with
+    | .tensor t, true => t.element T true inp
+    | .discr d, true => d.element T true inp
+    | s, _ => s.element T inp
+  some s!"ok {showRes r}"
+
+def showOS : Option Space → String
+  | some s => "ok " ++ showS s
+  | none => "raise"
+
+/-- `derive op=… S=<space> …` answers `ok <descriptor of the derived space>` or `raise`. -/
+def doDerive (l : Line) : Option String := do
+  let S ← Term.space? (← Term.parse (← l.get? "S"))
+  let T := OdlModel.Gen.DTypes.tables
+  match ← l.get? "op" with
+  | "astype" => do
+      let dt ← Term.dtype? (.atom (← l.get? "dt"))
+      let ok ← l.bool? "castok"
+      match S with
+      | .tensor t => some (showOS ((t.astype T dt ok).map .tensor))
+      | .discr d => some (showOS ((d.astype T dt ok).map .discr))
+      | s => some (showOS (s.astype T dt))
+  | "real" => do
+      let ok ← l.bool? "castok"
+      match S with
+      | .tensor t => some (showOS ((t.realSpace T ok).map .tensor))
+      | _ => none
+  | "complex" => do
+      let ok ← l.bool? "castok"
+      match S with
+      | .tensor t => some (showOS ((t.complexSpace T ok).map .tensor))
+      | _ => none
+  | "pindex" => do
+      let idx ← Term.pidx? (← Term.parse (← l.get? "idx"))
+      some (showOS (S.pindex idx))
+  | "byaxis" => do
+      let idx ← Term.pidx? (← Term.parse (← l.get? "idx"))
+      match S with
+      | .tensor t => some (showOS ((t.byaxis idx).map .tensor))
+      | _ => none
+  | "indexspace" => do
+      let sh ← Term.nats? (← Term.parse (← l.get? "shape"))
+      match S with
+      | .tensor t => some (showOS ((t.indexSpace sh).map .tensor))
+      | _ => none
+  | _ => none
+
 def handle (l : Line) : Option String :=
   match l.op with
   | "eqall" => doEqAll l
   | "contains" => doContains l
+  | "element" => doElement l
+  | "derive" => doDerive l
   | _ => none
 
 def main : IO Unit := driverLoop handle
